@@ -25,6 +25,16 @@ CHECKS = {
          "The four neighbour-search classes run on generated configurations (0..300 beads, orthorhombic and reduced triclinic boxes, cutoffs giving 1,2,3..20 cells per direction, one/two/three-list variants, exclusions on/off); delivered pairs (multiset), stored pairs/triples, connection vectors and distances are compared with brute force; grid result = simple result. Held-on-observed.",
          "Trusted: brute-force oracle; pairs within 1e-9*cutoff of the cutoff are don't-care; callback multiplicity judged for pairs only (DESIGN §5 C03).",
          "DESIGN.md §5 C03"),
+ "C04": ("exploration",
+         "runtime monitoring: the real csg_stat executable (ASan/UBSan build) on generated topologies/trajectories/mappings/options, every written file compared with an independent numpy re-implementation of the documented formulas",
+         "csg_stat runs (128 quick / 4000 thorough) over 1..12 frames with per-frame box volumes, 1..3 bead types, bonded groups, --include-intra, --do-imc, --block-length, --first-frame/--nframes, --nt; *.dist.new, *.imc, *.gmc, *.idx and block files are compared bin by bin with a reference recomputation from the parsed input files. Held-on-observed.",
+         "Trusted: the numpy reference (V/N^2 normalisation reading recorded in DESIGN.md §5 C04); frames with a pair within 1e-6 of a bin edge or the cutoff are re-drawn; orthorhombic boxes only (the readers used are orthorhombic).",
+         "DESIGN.md §5 C04"),
+ "C06": ("exploration",
+         "runtime monitoring: csg_fmatch on systems whose reference forces are generated inside the spline space (oracle = the generating functions; internal-coordinate gradients self-checked by finite differences), csg_imc_solve judged by the independently computed normal-equation residual, KKT monitors for linalg_constrained_qrsolve; ASan/UBSan builds",
+         "224/480/4000 (quick) fmatch systems / (A,b,r) problems / constrained problems: fitted force tables vs generating functions for pair, bond, angle, dihedral (incl. periodic) interactions, constrained and plain least squares, 1..3 blocks; (A^T A + rI)x = -A^T b residual incl. non-symmetric A and multi-interaction index files; constraint satisfaction and null-space orthogonality. Held-on-observed.",
+         "Trusted: numpy reference; under-sampled spline intervals are skipped and counted; one common kcal/kJ unit factor per fmatch case is fitted within [4.184/4.1868, 1] (C20 judges the constant itself).",
+         "DESIGN.md §5 C06"),
  "C07": ("exploration",
          "runtime monitoring: Richardson-extrapolated central differences of the reported value, gradient-sum, rigid-motion and periodic-image invariance monitors, D2F symmetry, tabulated-potential comparison; real library under ASan/UBSan",
          "IBond/IAngle/IDihedral gradients, LJ126/LJG/CBSPL parameter derivatives and Cubic/Akima/Lin spline derivatives are evaluated on ~6e4 (quick) / 3e6 (thorough) generated geometries, parameter vectors and data sets and compared with numerical derivatives of the value the same object reports. Held-on-observed.",
